@@ -37,6 +37,9 @@ W2_2 == {(1 :> <<1, 2>>) @@ (2 :> <<2, 1>>), (1 :> <<1, 3>>) @@ (2 :> <<3, 2>>),
 W3_1 == {(1 :> <<1>>) @@ (2 :> <<2>>) @@ (3 :> <<3>>), (1 :> <<1>>) @@ (2 :> <<1>>) @@ (3 :> <<2>>), (1 :> <<2>>) @@ (2 :> <<2>>) @@ (3 :> <<2>>)}
 W2_3 == {(1 :> <<1, 2, 3>>) @@ (2 :> <<3, 2, 1>>)}
 
+\* one thread repeats a top-level load while the other has a load in progress
+W_rep == {(1 :> <<1>>) @@ (2 :> <<2, 2, 2, 2>>), (1 :> <<1, 1>>) @@ (2 :> <<1, 1, 1, 1>>)}
+G_rep == {G_chain, G_indep}
 W_mc2 == W2_1 \cup W2_2
 W_sim == W2_3 \cup W2_2
 G_mc  == AllGraphs \cup FanGraphs
